@@ -47,6 +47,7 @@ def run(chk):
     r4(chk, prog, m)
     r5(chk, prog, m)
     r6(chk, prog)
+    r8_hash_stable(chk, prog, m)
     chk.undecided_clauses += [
         "behaviour over operation histories (probe chains through tombstones after arbitrary churn): decided only as per-operation "
         "preservation of the representation's coupling, on shape classes",
@@ -894,3 +895,88 @@ def _find_next_load(f, P, v, depth):
             if r is not None:
                 return r
     return None
+
+
+# ---------------------------------------------------------------------------------------------------------------------
+def _global_of(op):
+    """name of the global an operand denotes (directly or through a constant cast), else None"""
+    if op.kind == "global":
+        return op.v
+    if op.kind == "cexpr":
+        import re
+        mm = re.findall(r"@([A-Za-z_.$][A-Za-z0-9_.$]*)", str(op.v))
+        if len(mm) == 1:
+            return mm[0]
+    return None
+
+
+def r8_hash_stable(chk, prog, m):
+    rid = "C06.R8"
+    chk.rule(rid, "the hash function of a table is a function of the key alone for the table's lifetime: every function that can be "
+                  "installed as a table's hash function (passed to lh_table_new, or stored in the global the string tables take theirs "
+                  "from) reads, itself or through its callees, no global variable that another function writes (a slot chosen at "
+                  "insertion must be the slot computed at lookup)")
+    defined = {f.name: f for f in prog.all_functions() if not f.is_decl}
+    cands = {}
+    for f in defined.values():
+        for i in f.instrs():
+            if i.op == "call" and i.callee == "lh_table_new" and len(i.ops) >= 3:
+                g = _global_of(i.ops[2])
+                if g in defined:
+                    cands.setdefault(g, "passed to lh_table_new in %s" % f.name)
+            if i.op == "store" and f.module is m:
+                g = _global_of(i.ops[0])
+                t = _global_of(i.ops[1])
+                if g in defined and t is not None and t not in defined:
+                    cands.setdefault(g, "stored in the global %s by %s" % (t, f.name))
+    chk.require(cands, "no function is installed as a hash function anywhere")
+    # global -> functions that write it
+    writers = {}
+    for f in defined.values():
+        for i in f.instrs():
+            tgt = None
+            if i.op == "store":
+                tgt = _global_of(i.ops[1])
+            elif i.op in ("cmpxchg", "atomicrmw"):
+                tgt = _global_of(i.ops[0])
+            if tgt is not None and tgt not in defined:
+                writers.setdefault(tgt, set()).add(f.name)
+    n = 0
+    for name, how in sorted(cands.items()):
+        n += 1
+        f = defined[name]
+        chk.touched(f)
+        closure, work = {name}, [name]
+        indirect = None
+        while work:
+            g = defined[work.pop()]
+            for i in g.instrs():
+                if i.op == "call":
+                    if i.callee in defined and i.callee not in closure:
+                        closure.add(i.callee)
+                        work.append(i.callee)
+                    elif i.callee is None and indirect is None:
+                        indirect = i
+        bad = None
+        for gname in sorted(closure):
+            for i in defined[gname].instrs():
+                if i.op != "load":
+                    continue
+                t = _global_of(i.ops[0])
+                if t is None or t in defined:
+                    continue
+                w = sorted(writers.get(t, set()) - closure)
+                if w and bad is None:
+                    bad = (i, t, w, gname)
+        sig = "%s (%s)" % (name, how)
+        if bad:
+            i, t, w, gname = bad
+            chk.refuted(rid, name, sig, i.locstr(),
+                        "%s reads the global %s%s, which %s writes: the hash of a key changes while tables that placed their entries "
+                        "with the old value are alive, so a live key is looked up in the wrong slot (not found, or inserted twice)"
+                        % (name, t, "" if gname == name else " (in %s)" % gname, ", ".join(w)), {"load": i.raw, "writers": w})
+        elif indirect is not None:
+            chk.undecided(rid, name, sig, indirect.locstr(), "makes an indirect call whose target is not a global read that was followed")
+        else:
+            chk.proven(rid, name, sig, f.entry.term.locstr(), "reads only its argument, constants and globals written by no function outside itself and its callees (%d functions)" % len(closure))
+    chk.floor(rid, n, 2, "functions installable as a hash function")
